@@ -11,20 +11,20 @@ import (
 // modelMods lists the heap variables the built-in library models write
 // (used by the may-modify summaries).
 var modelMods = map[string][]string{
-	"(*sync.Mutex).Lock":       {"$held"},
-	"(*sync.Mutex).Unlock":     {"$held"},
-	"(*sync.RWMutex).Lock":     {"$held"},
-	"(*sync.RWMutex).Unlock":   {"$held"},
-	"(*sync.RWMutex).RLock":    {"$rheld"},
-	"(*sync.RWMutex).RUnlock":  {"$rheld"},
-	"(*sync.WaitGroup).Add":    {"$wg"},
-	"(*sync.WaitGroup).Done":   {"$wg"},
-	"(*sync.WaitGroup).Wait":   {"$waited"},
-	"sync/atomic.LoadInt32":    {},
-	"sync/atomic.LoadInt64":    {},
-	"sync/atomic.LoadUint32":   {},
-	"sync/atomic.LoadUint64":   {},
-	"sync/atomic.LoadPointer":  {},
+	"(*sync.Mutex).Lock":      {"$held"},
+	"(*sync.Mutex).Unlock":    {"$held"},
+	"(*sync.RWMutex).Lock":    {"$held"},
+	"(*sync.RWMutex).Unlock":  {"$held"},
+	"(*sync.RWMutex).RLock":   {"$rheld"},
+	"(*sync.RWMutex).RUnlock": {"$rheld"},
+	"(*sync.WaitGroup).Add":   {"$wg"},
+	"(*sync.WaitGroup).Done":  {"$wg"},
+	"(*sync.WaitGroup).Wait":  {"$waited"},
+	"sync/atomic.LoadInt32":   {},
+	"sync/atomic.LoadInt64":   {},
+	"sync/atomic.LoadUint32":  {},
+	"sync/atomic.LoadUint64":  {},
+	"sync/atomic.LoadPointer": {},
 }
 
 func init() {
